@@ -355,6 +355,7 @@ func (i *Interpreter) Exec(ctx context.Context, bs match.Bindings, props core.St
 	// We want to make sure that the following goroutine is
 	// terminated as soon as possible.
 	ictx, cancel := context.WithCancel(ctx)
+	defer cancel()
 	go func() {
 		<-ictx.Done()
 		// If this Exec method calls cancel() after RunProgram
@@ -365,7 +366,6 @@ func (i *Interpreter) Exec(ctx context.Context, bs match.Bindings, props core.St
 	}()
 
 	v, err := RunProgram(o, p)
-	cancel()
 
 	if err != nil {
 		if _, is := err.(*goja.InterruptedError); is {
@@ -374,7 +374,22 @@ func (i *Interpreter) Exec(ctx context.Context, bs match.Bindings, props core.St
 		return nil, err
 	}
 
-	x := v.Export()
+	// Exporting the returned value runs script code (property
+	// getters), which can throw: outside of RunProgram, so recover
+	// here, too.  (The watcher above is still in place: cancel()
+	// is deferred.)
+	var x interface{}
+	if err = func() (err error) {
+		defer func() {
+			if r := recover(); r != nil {
+				err = fmt.Errorf("%v", r)
+			}
+		}()
+		x = v.Export()
+		return nil
+	}(); err != nil {
+		return nil, err
+	}
 
 	var result match.Bindings
 	switch vv := x.(type) {
@@ -386,7 +401,8 @@ func (i *Interpreter) Exec(ctx context.Context, bs match.Bindings, props core.St
 		result = vv
 	case nil:
 	default:
-		return nil, fmt.Errorf("%#v (%T) isn't Bindings", x, x)
+		// (Don't print the value itself: it can be cyclic.)
+		return nil, fmt.Errorf("a %T isn't Bindings", x)
 	}
 	exe.Bs = result
 
